@@ -184,7 +184,30 @@ def hook_exp_iter(I, args, node):
 
 
 def hook_filter_nonzero(I, a, e):
-    """filter(|f| !f.is_zero()) over inverted challenges: identity on the non-degenerate path"""
+    """filter(|f| !f.is_zero()) over inverted challenges: identity on the non-degenerate path (a challenge is zero with
+    negligible probability).  Every other filter changes lengths data-dependently and is outside the fragment."""
+    from .interp import IterV
+    from .alg import Closure
+
+    f = I.deref(a[1]) if len(a) > 1 else None
+    it = I.deref(a[0])
+    vec = it.vec if isinstance(it, IterV) else (it if isinstance(it, Vec) else None)
+    ok = isinstance(f, Closure) and vec is not None
+    if ok:
+        b = f.node["body"]
+        while b["k"] == "Block" and not b["stmts"] and b.get("expr"):
+            b = b["expr"]
+        inner = FX.strip(b["e"]) if b["k"] == "Unary" and b.get("op") == "!" else None
+        ok = inner is not None and inner["k"] == "MethodCall" and (FX.callee_path(inner) or "").endswith("Zero::is_zero")
+    if ok:
+        # elements must be inverses of transcript challenges
+        import sympy as _sp
+
+        for s_ in vec.nonempty_segs():
+            el = s_.f(isym("_j"))
+            ok = ok and isinstance(el, Sc) and all(str(getattr(x, "func", x)).startswith("ch[") for x in el.e.atoms(_sp.Function) | el.e.free_symbols if str(x) != "_j")
+    if not ok:
+        raise Unanalysable("Iterator::filter changes lengths data-dependently (only `filter(|x| !x.is_zero())` over challenge inverses is recognised)", FX.short(e.get("sp")))
     I.asserts.append(("filter-assumed-identity", FX.short(e.get("sp"))))
     return a[0]
 
